@@ -136,6 +136,22 @@ class Run:
             raise Infeasible()
         return d == 0
 
+    def entails(self, f, timeout_ms=500):
+        """pc |= f, decided by a quick solver call (used to keep terms simple, never to discharge obligations)."""
+        f = z3.simplify(f)
+        if z3.is_true(f):
+            return True
+        if z3.is_false(f):
+            return False
+        s = z3.Solver()
+        s.set('timeout', timeout_ms)
+        forms = list(self.st.pc) + [z3.Not(f)]
+        for _, ax, _ in smt.relevant_axioms(forms):
+            s.add(ax)
+        for g in forms:
+            s.add(g)
+        return s.check() == z3.unsat
+
     def truth(self, v):
         return self.branch(to_bool_term(v))
 
